@@ -532,3 +532,67 @@ def identity_of_values(ctx, subdirs, why):
                                  expected=norm(c).replace(" is not ", " != ").replace(" is ", " == "))
     ctx.holds("-", "-", f"identity comparisons scanned ({n}): {why}")
     return n
+
+
+def escape_marks_removed(ctx):
+    """DIP._determine_node replaces escaped quotes and newlines of a line by marks ($@00 ...) before the line is cut into
+    parts, and puts the characters back afterwards.  Every text field the parser fills from the marked line - the raw
+    value, a function name, an expression - has to get them back: sibling fields are compared (one decoded, another
+    handed out with the marks still in it is the violation)."""
+    DIPF, PARF = "src/scinumtools/dip/dip.py", "src/scinumtools/dip/nodes/parser.py"
+    fn = ctx.fn(DIPF, "DIP._determine_node")
+    what = "every text field cut from the marked line gets its escaped characters back"
+    pc = ctx.repo.cls(PARF, "Parser")
+    from ..model import methods as _methods
+    filled = set()
+    for mname, m in _methods(pc).items():
+        if not mname.startswith("part_"):
+            continue
+        for a in ast.walk(m):
+            if isinstance(a, ast.Assign) and isinstance(a.targets[0], ast.Attribute) and norm(a.targets[0].value) == "self" and a.targets[0].attr.startswith("value_") \
+                    and (("group(" in norm(a.value)) or isinstance(a.value, ast.Subscript)):
+                filled.add(a.targets[0].attr)
+    filled -= {"value_ref", "value_slice"}          # a reference path / a slice are cut by patterns that admit no quote
+    decoded = set()
+    for c in ast.walk(fn):
+        if isinstance(c, ast.Call) and isinstance(c.func, ast.Name) and c.func.id == "decode_symbols" and c.args and isinstance(c.args[0], ast.Attribute) \
+                and norm(c.args[0].value) == "node":
+            decoded.add(c.args[0].attr)
+        if isinstance(c, ast.Call) and isinstance(c.func, ast.Name) and c.func.id in ("setattr", "getattr") and len(c.args) >= 2 and isinstance(c.args[1], ast.Constant):
+            decoded.add(c.args[1].value)
+    for lp in ast.walk(fn):
+        if isinstance(lp, ast.For) and isinstance(lp.iter, (ast.Tuple, ast.List)) and "decode_symbols" in norm(lp):
+            decoded |= {e.value for e in lp.iter.elts if isinstance(e, ast.Constant) and isinstance(e.value, str)}
+    if len(filled) < 2 or not decoded:
+        ctx.form(False, DIPF, "DIP._determine_node", what, detail={"filled by the parser": sorted(filled), "decoded": sorted(decoded)})
+        return
+    missing = sorted(filled - decoded)
+    if missing:
+        ctx.violated(DIPF, "DIP._determine_node", what, detail={"decoded": sorted(decoded & filled), "handed out with the marks": missing},
+                     expected=f"node.{missing[0]} = decode_symbols(node.{missing[0]})")
+    else:
+        ctx.holds(DIPF, "DIP._determine_node", what, detail=sorted(filled))
+
+
+def conversion_roles(ctx):
+    """`_convert(magnitude, its units, target units)`: the number handed over is read in the units of the object it was
+    taken from.  A call that pairs `a.magnitude` with `b.baseunits` converts a's number as if it were given in b's units."""
+    n = 0
+    for rel in ("src/scinumtools/units/quantity.py", "src/scinumtools/units/unit_types.py"):
+        mod = ctx.repo.module(rel)
+        for c in ast.walk(mod.tree):
+            if not (isinstance(c, ast.Call) and isinstance(c.func, ast.Attribute) and c.func.attr == "_convert" and len(c.args) == 3):
+                continue
+            m, src = c.args[0], c.args[1]
+            if not (isinstance(m, ast.Attribute) and m.attr == "magnitude" and isinstance(src, ast.Attribute) and src.attr == "baseunits"):
+                continue
+            n += 1
+            from ..model import enclosing_function, qualname
+            fn = enclosing_function(c)
+            q = qualname(fn) if fn is not None else "<module>"
+            what = "a magnitude is converted from the units of the object it belongs to"
+            if norm(m.value) == norm(src.value):
+                ctx.holds(rel, q, what, detail=norm(c)[:90])
+            else:
+                ctx.violated(rel, q, what, detail=norm(c)[:100], expected=f"_convert({norm(m)}, {norm(m.value)}.baseunits, ...)")
+    ctx.floor("_convert call sites with (x.magnitude, y.baseunits)", n, 8)
